@@ -285,7 +285,7 @@ def sites_of(path, live=None):
                 out.append("default:%s(%s)" % (qual, ast.unparse(d)))
         for d in fn.decorator_list:
             name = ast.unparse(d.func if isinstance(d, ast.Call) else d)
-            if name not in STRUCTURAL_DECORATORS:
+            if name not in STRUCTURAL_DECORATORS and not name.endswith((".setter", ".getter", ".deleter")):
                 out.append("decorator:%s:@%s" % (qual, name))
 
         def rooted(t):
